@@ -199,14 +199,16 @@ CHECKS = {
             "is captured and the Euler recursion recomputed in the harness; closed forms for constant and diagonal "
             "coefficients; discount factors on a mesh containing every tenor and its float neighbours",
             "Exploration: MarkovChainSDE (single process) and CouplingSDE (levels 1-2, both components) over 1-d "
-            "chains of every family and 2-d Clayton copula chains, with Constant (m x d), DiagX and Libor-type "
+            "chains of every family and 2-d Clayton copula chains, with Constant (m x d), DiagX, Libor-type coefficients "
+            "(tenors beyond or inside the horizon, up to two earlier paths on the same process) and the Levy Libor model "
+            "(state-dependent SDE drift) "
             "coefficient functions: the returned path must equal, step by step on the driver's own time grid, "
             "X_{i+1} = X_i + (b + a(t_i,X_i) mu) dt + a(t_i,X_i)(dW_i + dL_i) with the coefficient re-typed in the "
             "harness, each component with the drift of a fresh chain built on an independently refined grid of its own "
             "level (the coupling's stored drifts are compared with those, and in 1-d the fine/coarse diffusion "
             "increments must be the fresh chains' coefficients times one Brownian path); constant a => x0 + a*Y_T, diag(x) => "
             "x0*prod(1+dY_i); epsilon = h^beta. Rate models: df(0)=1, positive, non-increasing, continuous at tenors "
-            "and equal to simple compounding of the initial curve for 1..6 periods.",
+            "and equal to simple compounding of the initial curve for 1..6 periods (float and integer-typed tenors).",
             "Driver paths are the library's own random paths (numpy seeded per case), captured by a wrapper; the "
             "correctness of those paths is C15's and C03's subject."),
     "C11": ("3/C11",
@@ -248,7 +250,8 @@ CHECKS = {
             "representation, equal to a harness definition (time-weighted average within [min,max], performances, "
             "default time = first jump below the threshold by a reference scan, n-th default non-decreasing in n); "
             "call-put=forward, call spread and butterfly = call combinations, digital call+put=1, KI+KO=vanilla with "
-            "fresh and reused objects, vector strikes, notional linear; every underlying class (all dimensions) as one "
+            "fresh and reused objects and each barrier leg = its definition from the path's extremes, vector strikes, "
+            "notional linear; histories contain twin paths (same terminal value, different extremes); every underlying class (all dimensions) as one "
             "object valued on a sequence of paths with representation switches equals a fresh object bitwise.",
             "Barrier products are kept in identity representation (the barrier is compared with the raw path); "
             "LookBack raises by design and is excluded."),
@@ -265,7 +268,9 @@ CHECKS = {
             "log-return stddev <= 0.8, integrand singularity >= 1 from the real axis), VG = its CGMY parametrisation "
             "(1e-7). On smooth models (BS, HEM, Merton) a failed sweep is itself a violation. CFBlackScholes on both "
             "sides of the 1e-8 threshold of its degenerate branch (volatility, maturity): parity with its forward, "
-            "bounds, time-value bound, digital in [0,df]. One COS / FFT pricer "
+            "bounds, time-value bound, digital in [0,df]. price() on call / put / forward products with a notional (parity, "
+            "common scaling) and on a digital product (refused or = digital()); strike vectors of 129..301 entries = "
+            "the same strikes priced 50 at a time; the model may be re-declared in another representation first. One COS / FFT pricer "
             "object used for a generated sequence of calls at several maturities equals fresh pricers bitwise.",
             "'Provably below tolerance' is replaced by a measured sweep (n=10000,L=10) vs (n=40000,L=20): cases "
             "outside are counted as rejected; FFT comparisons are restricted to the domain where its fixed step and "
